@@ -75,6 +75,12 @@ fn cstring_wellformed<const N: usize>(ctor: u8) {
     assert!(unsafe { *p.add(n) } == 0, "terminating NUL directly after the prefix");
     let d: &str = &c;
     assert!(d.len() == n && d.as_ptr() == p);
+    {
+        // the borrowed view of the owned string is the same C string
+        let bv: &ReprCStr = std::borrow::Borrow::borrow(&c);
+        let bs: &str = bv.as_ref();
+        assert!(bs.len() == n && bs.as_ptr() == p, "Borrow<ReprCStr> reads the same text in place");
+    }
 
     drop(c);
 }
